@@ -126,6 +126,11 @@ def _len(interp, x):
         return len(x)
     if isinstance(x, SArr):
         return x.shape[0]
+    if getattr(x, "_pyvc_native", False) and hasattr(x, "__len__"):
+        try:
+            return type(x).__len__(x)
+        except TypeError as e:
+            raise X.PyRaise(interp.make_exc("TypeError", str(e)))
     if isinstance(x, X.Obj) and isinstance(x.cls, X.RepoClass):
         m = x.cls.lookup(interp, "__len__")
         if m is not None:
@@ -276,7 +281,23 @@ def _tuple(interp, it=()):
 @bi("set")
 @wants_interp
 def _set(interp, it=()):
+    if isinstance(it, _frames_mod().ValueSet):
+        return it
     return set(interp.iterate(it))
+
+
+def _frames_mod():
+    from . import frames
+    return frames
+
+
+def _contains_hook(interp, container, item):
+    if isinstance(container, _frames_mod().ValueSet):
+        return container.contains(item)
+    return NotImplemented
+
+
+REG["__contains__"] = _contains_hook
 
 
 @bi("dict")
@@ -678,6 +699,12 @@ def np_meshgrid(*xi, indexing="xy", sparse=False, copy=True):
 @reg("numpy.stack")
 @wants_interp
 def np_stack(interp, arrays, axis=0, **kw):
+    if isinstance(arrays, X.RepList):
+        if axis != 0:
+            raise Unsupported("stack of a symbolically repeated list along axis != 0")
+        e = A.from_nested(arrays.elem)
+        f = e.snapshot()
+        return SArr((arrays.n,) + tuple(e.shape), lambda idx: f(tuple(idx[1:])), e.dtype)
     arrs = [A.from_nested(a) for a in interp.iterate(arrays)]
     n = len(arrs)
     if n == 0:
@@ -836,6 +863,10 @@ def _where(c, a, b):
 # reductions over *concrete-shape* arrays are exact finite sums; symbolic extents use Sum terms (rules.py)
 def _reduce_concrete(a, op, axis):
     a = A.from_nested(a)
+    if axis is not None:
+        _ax = (axis,) if isinstance(axis, int) else tuple(axis)
+        if any(not isinstance(a.shape[x % a.ndim], int) for x in _ax):
+            raise Unsupported("reduction over a symbolic extent")
     if axis is None:
         shp = a.concrete_shape()
         vals = [a.at(idx) for idx in itertools.product(*[range(s) for s in shp])]
@@ -991,6 +1022,40 @@ def np_cross(a, b, **kw):
 
 
 REG["numpy.cross"] = np_cross
+
+
+def np_einsum(subscripts, *operands):
+    """einsum over concrete contracted extents (the two patterns used in acryo contract 4x4 matrices)"""
+    ops = [A.from_nested(o) for o in operands]
+    lhs, rhs = subscripts.replace(" ", "").split("->")
+    terms = lhs.split(",")
+    sizes = {}
+    for t, o in zip(terms, ops):
+        if len(t) != o.ndim:
+            raise Unsupported("einsum rank mismatch")
+        for ch, s_ in zip(t, o.shape):
+            sizes.setdefault(ch, s_)
+    contracted = [ch for ch in sizes if ch not in rhs]
+    for ch in contracted:
+        if not isinstance(sizes[ch], int):
+            raise Unsupported("einsum contraction over a symbolic extent")
+    fs = [o.snapshot() for o in ops]
+
+    def fn(idx):
+        env = dict(zip(rhs, idx))
+        total = 0
+        for combo in itertools.product(*[range(sizes[ch]) for ch in contracted]):
+            env2 = dict(env)
+            env2.update(zip(contracted, combo))
+            prod = 1
+            for t, f in zip(terms, fs):
+                prod = V.arith("*", prod, f(tuple(env2[ch] for ch in t)))
+            total = V.arith("+", total, prod)
+        return total
+    return SArr(tuple(sizes[ch] for ch in rhs), fn, "real")
+
+
+REG["numpy.einsum"] = np_einsum
 
 
 def np_unravel_index(indices, shape, **kw):
@@ -1165,6 +1230,8 @@ def _arr_method(arr, name):
         return lambda axis=None: np_argmax(a, axis)
     if name == "get":
         return lambda: a
+    if name == "compute":
+        return lambda *args, **kw: a
     return NotImplemented
 
 
@@ -1252,7 +1319,15 @@ def _getattr_hook(interp, obj, name):
             def upd(*a, **k):
                 interp.frame_write(obj, None)
                 for x in a:
-                    obj.update(x if isinstance(x, dict) else dict(interp.iterate(x)))
+                    if isinstance(x, dict):
+                        obj.update(x)
+                        continue
+                    for el in interp.iterate(x):
+                        pair = list(interp.iterate(el))
+                        if len(pair) != 2:
+                            raise X.PyRaise(interp.make_exc(
+                                "ValueError", f"dictionary update sequence element has length {len(pair)}; 2 is required"))
+                        obj[pair[0]] = pair[1]
                 obj.update(k)
             return upd
         if name == "keys":
@@ -1399,10 +1474,18 @@ REG["numpy.cumsum"] = _cumsum
 
 
 def _sum_symbolic(a, axis):
-    """sum over a symbolic extent: an uninterpreted value (no algebraic rules are used for it here)"""
+    """sum over a symbolic extent: an uninterpreted value; the summed array and the axes are recorded as ghost
+    state (GHOST['sum']) so that contracts can state *what* is summed"""
     if axis is None:
-        return V.fresh("Sum", "real")
-    raise Unsupported("axis-wise sum over a symbolic extent")
+        r = V.fresh("Sum", "real")
+        GHOST.setdefault("sum", []).append((r, a, None))
+        return r
+    ax = (axis,) if isinstance(axis, int) else tuple(axis)
+    ax = tuple(x % a.ndim for x in ax)
+    keep = [i for i in range(a.ndim) if i not in ax]
+    res = _uf_array("SumAx", tuple(a.shape[i] for i in keep), "real")
+    GHOST.setdefault("sum", []).append((res, a, ax))
+    return res
 
 
 SUM_HOOK[0] = _sum_symbolic
@@ -1417,6 +1500,52 @@ def _ndi_map_coordinates(input, coordinates, output=None, order=3, mode="constan
 
 REG["scipy.ndimage.map_coordinates"] = _ndi_map_coordinates
 
+_INTERP = {}
+
+
+def interp_sample(img, coords, order=3):
+    """value of the order-`order` spline interpolant of `img` at real coordinates: an uninterpreted function per
+    (array object, order).  Exactness at integer nodes / locality are separate lemmas, not built in."""
+    key = (id(img), order if not is_sym(order) else "sym")
+    if key not in _INTERP:
+        _INTERP[key] = (img, z3.Function(V.fresh_name(f"Interp{order if not is_sym(order) else ''}"), R, R, R, R))
+    f = _INTERP[key][1]
+    args = [V.lift(V.to_real(c) if is_sym(c) else Fraction(c)) for c in coords]
+    return Sym(f(*args))
+
+
+def _ndi_affine_transform(input, matrix, offset=0, output_shape=None, output=None, order=3, mode="constant",
+                          cval=0.0, prefilter=True):
+    """trusted contract: output[o] = spline_order(input)(M o + t) for a homogeneous (ndim+1)x(ndim+1) or ndim x (ndim+1)
+    matrix (scipy's documented semantics); output shape = output_shape or input.shape"""
+    img = A.from_nested(input)
+    M = A.from_nested(matrix)
+    nd = img.ndim
+    if nd != 3 or M.ndim != 2:
+        raise Unsupported("affine_transform: only 3-d images with a 2-d matrix are modelled")
+    mf = M.snapshot()
+    shp = tuple(X._unfrac(s_) for s_ in output_shape) if output_shape is not None else tuple(img.shape)
+    homog = (not isinstance(M.shape[1], int)) or M.shape[1] == nd + 1
+
+    def fn(idx):
+        coords = []
+        for a in range(nd):
+            t = 0
+            for b in range(nd):
+                t = V.arith("+", t, V.arith("*", mf((a, b)), idx[b]))
+            if homog:
+                t = V.arith("+", t, mf((a, nd)))
+            coords.append(t)
+        return interp_sample(img, coords, order)
+    return SArr(shp, fn, "real")
+
+
+for _m in ("scipy.ndimage", "acryo._typed_scipy"):
+    REG[_m + ".affine_transform"] = _ndi_affine_transform
+    REG[_m + ".map_coordinates"] = _ndi_map_coordinates
+REG["scipy.ndimage.spline_filter"] = lambda input, order=3, output=None, mode="mirror": A.from_nested(input)
+REG["acryo._typed_scipy.spline_filter"] = REG["scipy.ndimage.spline_filter"]
+
 # dask.array ------------------------------------------------------------------
 REG["dask.array.pad"] = np_pad
 REG["dask.array.from_array"] = lambda x, *a, **k: A.from_nested(x)
@@ -1426,3 +1555,19 @@ REG["dask.array.stack"] = np_stack
 
 from . import rotation as _rotation
 _rotation.register(REG)
+from . import frames as _frames
+_frames.register(REG)
+
+
+def _atleast_2d(x):
+    a = A.from_nested(x)
+    if a.ndim >= 2:
+        return a
+    if a.ndim == 1:
+        f = a.snapshot()
+        return SArr((1, a.shape[0]), lambda idx: f((idx[1],)), a.dtype)
+    return SArr((1, 1), lambda idx: a.at(()), a.dtype)
+
+
+REG["numpy.atleast_2d"] = _atleast_2d
+REG["dask.array.compute"] = lambda *a, **k: tuple(a)
